@@ -35,6 +35,7 @@ type c08case struct {
 	diffBase bool
 	flags    []string // options + command
 	web      string   // non-empty: web request instead of a command-line report
+	legacy   bool     // the source is a legacy text profile
 }
 
 func (c *c08case) String() string {
@@ -75,7 +76,11 @@ func genC08Case(t *simrt.Tape) *c08case {
 	for i := 0; i < ns; i++ {
 		c.profs = append(c.profs, mk())
 	}
-	if t.Bool(K, 15) {
+	if t.Bool(K, 8) {
+		// a legacy text profile with a memory map that uses $attr substitution
+		c.profs = [][]byte{genLegacyText(t)}
+		c.legacy = true
+	} else if t.Bool(K, 15) {
 		// The same binary installed at two paths: a twin of the first source
 		// whose mappings live in another directory (same base name), optionally
 		// with both sides unsymbolized. Nodes then differ only in object file.
@@ -275,6 +280,13 @@ func runC08(x *xctx) *violation {
 			}
 			x.tr("map policy %s, strategy %d", polName(pol), cfg.Strategy)
 			return violf("map-order-dependent-output:"+c.key(), "%s: output under map policy %s differs from the canonical-order run: %s", c, polName(pol), firstDiff(got.out, ref.out))
+		}
+	}
+	if c.legacy {
+		if ref.err == "" && len(ref.out) > 0 {
+			x.probe("legacy_text_source_reported")
+		} else {
+			x.probe("legacy_text_source_rejected")
 		}
 	}
 	if perms >= 2 && len(ref.out) > 0 {
